@@ -726,6 +726,16 @@ class TableExact(Monitor):
     name = 'table'
 
     def post(self, sim, ev):
+        # the table as every dispatch_message call of this event left it (before the sweep of the same loop pass)
+        pos = getattr(self, 'dpos', 0)
+        for name, table in sim.w.dispatch_tables[pos:]:
+            objs = [id(sa) for sa, _ in table]
+            if len(set(objs)) != len(objs):
+                sim.fail('table-duplicate-object', f'endpoint {name} lists the same IKE_SA twice after dispatching {describe(ev)}')
+            if any(st == State.DELETED for _, st in table):
+                sim.fail('table-keeps-deleted', f'after dispatching {describe(ev)} the table of endpoint {name} holds an IKE_SA in '
+                                                f'state DELETED')
+        self.dpos = len(sim.w.dispatch_tables)
         for ep in sim.eps.values():
             if not ep.up:
                 continue
